@@ -537,6 +537,86 @@ def install(ex):
         for v in enum_branch(ex, o, ["Some", "None"]):
             yield Some(ex.deref1(variant_field(ex, o, "Some", 0))) if v == "Some" else NONE
 
+    @model(r"^(std::option::)?Option::(unwrap_or_else|unwrap_or_default|map_or|map_or_else|is_some_and|filter|or_else)$", "Option::unwrap_or_else / map_or / map_or_else / is_some_and / filter / or_else")
+    def opt_more(ex, callee, args, rt):
+        op = strip_turbofish(callee).rsplit("::", 1)[1]
+        o = args[0]
+        for v in enum_branch(ex, o, ["Some", "None"]):
+            x = variant_field(ex, o, "Some", 0) if v == "Some" else None
+            if op == "unwrap_or_else":
+                if v == "Some":
+                    yield x
+                else:
+                    yield from ex.call_closure(args[1], [])
+            elif op == "map_or":
+                if v == "Some":
+                    yield from ex.call_closure(args[2], [x])
+                else:
+                    yield args[1]
+            elif op == "map_or_else":
+                if v == "Some":
+                    yield from ex.call_closure(args[2], [x])
+                else:
+                    yield from ex.call_closure(args[1], [])
+            elif op == "is_some_and":
+                if v == "Some":
+                    yield from ex.call_closure(args[1], [x])
+                else:
+                    yield z3.BoolVal(False)
+            elif op == "filter":
+                if v == "Some":
+                    for keep in ex.call_closure(args[1], [Ref(Cell(x))]):
+                        for b in ex.branches([keep, z3.Not(keep)]):
+                            yield Some(x) if b == 0 else NONE
+                else:
+                    yield NONE
+            elif op == "or_else":
+                if v == "Some":
+                    yield o
+                else:
+                    yield from ex.call_closure(args[1], [])
+            else:
+                raise Unsupported("Option::" + op)
+
+    @model(r"^<&?(std::rc::)?Rc<.*> as PartialEq>::(eq|ne)$|^<&?(std::boxed::)?Box<.*> as PartialEq>::(eq|ne)$|^<(std::cell::)?RefCell<.*> as PartialEq>::(eq|ne)$|^<(std::vec::)?Vec<.*> as PartialEq>::(eq|ne)$|^<\\[.*\\] as PartialEq>::(eq|ne)$",
+           "PartialEq on Rc / Box / RefCell / Vec: contents compared structurally (elements by their own PartialEq)")
+    def container_eq(ex, callee, args, rt):
+        neg = callee.endswith("ne")
+
+        def inner_ty(t):
+            ga = generic_args(t.lstrip("&").strip())
+            return ga[0] if ga else None
+
+        def eq(a, b, ty):
+            a, b = ex.deref(a), ex.deref(b)
+            if isinstance(a, SeqObj) and isinstance(b, SeqObj):
+                et = None
+                if ty:
+                    t = ty.strip()
+                    while base_ty(t) in ("Rc", "Box", "RefCell"):
+                        t = inner_ty(t) or ""
+                    et = inner_ty(t) if base_ty(t) in ("Vec", "SmallVec") else (t[1:-1] if t.startswith("[") else None)
+                conds = [zint(a.ln) == zint(b.ln)]
+                for i in range(min(a.max, b.max)):
+                    xa, xb = ex.seq_item(a, i).v, ex.seq_item(b, i).v
+                    if xa is None or xb is None:
+                        continue
+                    if xa is xb:
+                        continue
+                    if et is None:
+                        raise Unsupported("element type of compared containers unknown: " + callee)
+                    rs = list(ex.call("<%s as PartialEq>::eq" % et, [Ref(Cell(xa)), Ref(Cell(xb))], "bool", 2))
+                    if len(rs) != 1:
+                        raise Unsupported("element equality forked")
+                    conds.append(z3.Or(zint(a.ln) <= i, rs[0]))
+                return z3.And(*conds)
+            if a is b:
+                return z3.BoolVal(True)
+            raise Unsupported("container equality on %r %r" % (a, b))
+
+        r = eq(args[0], args[1], self_type(callee))
+        yield z3.Not(r) if neg else r
+
     @model(r"^(std::option::)?Option::or$", "Option::or")
     def opt_or(ex, callee, args, rt):
         a, b = args
@@ -1015,6 +1095,183 @@ def install(ex):
         e = str_eq(ex, args[0], args[1])
         yield e if re.search(r"::eq$", callee) else z3.Not(e)
 
+    @model(r"^(core::)?char::methods::<impl char>::(is_ascii_digit|is_ascii_alphabetic|is_ascii_alphanumeric|is_ascii_whitespace|is_ascii_lowercase|is_ascii_uppercase|is_ascii|is_ascii_punctuation|is_ascii_hexdigit|is_whitespace|is_alphabetic|is_numeric|is_alphanumeric|is_control|is_lowercase|is_uppercase)$",
+           "char classification: exact for the ASCII predicates and is_whitespace; Unicode alphabetic/numeric/case predicates are exact below U+0080 and an uninterpreted predicate above")
+    def char_class(ex, callee, args, rt):
+        c = ex.deref(args[0])
+        op = callee.rsplit("::", 1)[1]
+        rng = lambda a, b: z3.And(c >= ord(a), c <= ord(b))
+        digit = rng("0", "9")
+        lower = rng("a", "z")
+        upper = rng("A", "Z")
+        alpha = z3.Or(lower, upper)
+        asc = c < 128
+        def uni(name, ascii_part):
+            f = z3.Function("unicode_" + name, z3.IntSort(), z3.BoolSort())
+            return z3.If(asc, ascii_part, f(c))
+        table = {
+            "is_ascii_digit": digit, "is_ascii_alphabetic": alpha, "is_ascii_alphanumeric": z3.Or(alpha, digit),
+            "is_ascii_whitespace": z3.Or(c == 32, c == 9, c == 10, c == 12, c == 13), "is_ascii_lowercase": lower, "is_ascii_uppercase": upper,
+            "is_ascii": asc, "is_ascii_hexdigit": z3.Or(digit, rng("a", "f"), rng("A", "F")),
+            "is_ascii_punctuation": z3.Or(z3.And(c >= 33, c <= 47), z3.And(c >= 58, c <= 64), z3.And(c >= 91, c <= 96), z3.And(c >= 123, c <= 126)),
+            "is_whitespace": z3.Or(z3.And(c >= 9, c <= 13), c == 32, c == 0x85, c == 0xA0, c == 0x1680, z3.And(c >= 0x2000, c <= 0x200A), c == 0x2028, c == 0x2029, c == 0x202F, c == 0x205F, c == 0x3000),
+            "is_control": z3.Or(c < 32, z3.And(c >= 127, c <= 159)),
+        }
+        if op in table:
+            yield table[op]
+        elif op == "is_alphabetic":
+            yield uni("alphabetic", alpha)
+        elif op == "is_numeric":
+            yield uni("numeric", digit)
+        elif op == "is_alphanumeric":
+            yield uni("alphanumeric", z3.Or(alpha, digit))
+        elif op == "is_lowercase":
+            yield uni("lowercase", lower)
+        elif op == "is_uppercase":
+            yield uni("uppercase", upper)
+        else:
+            raise NoModel()
+
+    @model(r"^(core::)?char::methods::<impl char>::(is_digit|to_digit)$", "char::is_digit / to_digit (radix 10 and 16)")
+    def char_digit(ex, callee, args, rt):
+        c = ex.deref(args[0])
+        radix = conc_int(args[1])
+        if radix not in (10, 16):
+            raise Unsupported("char digit with radix %r" % (radix,))
+        dec = z3.And(c >= 48, c <= 57)
+        if radix == 10:
+            ok, val = dec, c - 48
+        else:
+            lo = z3.And(c >= 97, c <= 102)
+            up = z3.And(c >= 65, c <= 70)
+            ok, val = z3.Or(dec, lo, up), z3.If(dec, c - 48, z3.If(lo, c - 87, c - 55))
+        if callee.endswith("is_digit"):
+            yield ok
+        else:
+            for i in ex.branches([ok, z3.Not(ok)]):
+                yield Some(val) if i == 0 else NONE
+
+    @model(r"^core::str::<impl str>::contains$|^str::contains$", "str::contains::<char> on a literal string")
+    def str_contains(ex, callee, args, rt):
+        sv = ex.deref(args[0])
+        c = ex.deref(args[1])
+        if isinstance(sv, StrVal) and sv.concrete() is not None and is_z3(c) and z3.is_int(c):
+            yield z3.Or(*[c == ord(ch) for ch in sv.concrete()]) if sv.concrete() else z3.BoolVal(False)
+            return
+        if isinstance(sv, CharStr) and is_z3(c) and z3.is_int(c):
+            yield z3.Or(*[c == x for x in sv.chars]) if sv.chars else z3.BoolVal(False)
+            return
+        raise Unsupported("str::contains on %r / %r" % (sv, c))
+
+    @model(r"^core::str::<impl str>::(starts_with|ends_with)$", "str::starts_with / ends_with on z3 strings")
+    def str_starts(ex, callee, args, rt):
+        a, b = ex.deref(args[0]), ex.deref(args[1])
+        if isinstance(a, StrVal) and isinstance(b, StrVal):
+            yield z3.PrefixOf(b.t, a.t) if callee.endswith("starts_with") else z3.SuffixOf(b.t, a.t)
+            return
+        raise Unsupported("starts_with on %r %r" % (a, b))
+
+    @model(r"^core::str::<impl str>::(strip_prefix|trim_start_matches)$", "str::strip_prefix (once) / trim_start_matches (repeatedly, up to 3 times in the model)")
+    def str_strip(ex, callee, args, rt):
+        a, b = ex.deref(args[0]), ex.deref(args[1])
+        if not (isinstance(a, StrVal) and isinstance(b, StrVal)):
+            raise Unsupported("strip on %r %r" % (a, b))
+        once = callee.endswith("strip_prefix")
+        has = z3.PrefixOf(b.t, a.t)
+        rest = z3.SubString(a.t, z3.Length(b.t), z3.Length(a.t) - z3.Length(b.t))
+        if once:
+            for i in ex.branches([has, z3.Not(has)]):
+                yield Some(StrVal(rest)) if i == 0 else NONE
+            return
+        cur = a.t
+        for _ in range(3):
+            h = z3.And(z3.PrefixOf(b.t, cur), z3.Length(b.t) > 0)
+            cur = z3.If(h, z3.SubString(cur, z3.Length(b.t), z3.Length(cur) - z3.Length(b.t)), cur)
+        ex.ctx.add(z3.Not(z3.And(z3.PrefixOf(b.t, cur), z3.Length(b.t) > 0)))      # bound of the model: at most 3 repetitions
+        yield StrVal(cur)
+
+    @model(r"^<(std::string::)?String as (Ord|PartialOrd)>::(cmp|partial_cmp)$|^<str as (Ord|PartialOrd)>::(cmp|partial_cmp)$|^<&(std::string::)?String as (Ord|PartialOrd)>::(cmp|partial_cmp)$", "lexicographic string comparison (z3 str.<)")
+    def str_cmp(ex, callee, args, rt):
+        a, b = ex.deref(args[0]), ex.deref(args[1])
+        if not (isinstance(a, StrVal) and isinstance(b, StrVal)):
+            raise Unsupported("string comparison on %r %r" % (a, b))
+        partial = callee.endswith("partial_cmp")
+        for i in ex.branches([a.t < b.t, a.t == b.t, b.t < a.t]):
+            o = Adt("Ordering", ("Less", "Equal", "Greater")[i], [])
+            yield Some(o) if partial else o
+
+    @model(r"^core::slice::<impl \[.*\]>::(sort_by|sort_unstable_by|sort_by_key|sort_unstable_by_key|sort|sort_unstable)$", "slice sort with a comparison closure: insertion sort over the (concrete-length) sequence, each comparison forked")
+    def slice_sort(ex, callee, args, rt):
+        s_ = ex.deref(args[0])
+        if "by_key" in callee or len(args) < 2:
+            raise Unsupported("sort variant " + callee)
+        cmpf = args[1]
+        for n in seq_len_cases(ex, s_):
+            vals = [ex.seq_item(s_, j).v for j in range(n)]
+
+            def insert_all(sorted_, rest):
+                if not rest:
+                    for j, v in enumerate(sorted_):
+                        tset(s_.items[j], "v", v)
+                    yield UNIT
+                    return
+                x = rest[0]
+
+                def place(pos):
+                    # find the first position whose element is greater than x
+                    if pos == len(sorted_):
+                        yield from insert_all(sorted_ + [x], rest[1:])
+                        return
+                    for o in ex.call_closure(cmpf, [Ref(Cell(x)), Ref(Cell(sorted_[pos]))]):
+                        if o.variant == "Less":
+                            yield from insert_all(sorted_[:pos] + [x] + sorted_[pos:], rest[1:])
+                        else:
+                            yield from place(pos + 1)
+                yield from place(0)
+            yield from insert_all([], vals)
+
+    @model(r"^core::slice::<impl \[.*\]>::binary_search_by$", "slice::binary_search_by: std's algorithm on the concrete-length sequence (comparisons forked)")
+    def slice_bsearch(ex, callee, args, rt):
+        s_ = ex.deref(args[0])
+        f = args[1]
+        for n in seq_len_cases(ex, s_):
+            def go(lo, hi):
+                # std: size = hi - lo; while size > 1 { half = size / 2; mid = base + half; base = if cmp(mid) == Greater { base } else { mid }; size -= half }
+                if lo >= hi:
+                    yield Err(z3.IntVal(lo))
+                    return
+                def loop(base, size):
+                    if size <= 1:
+                        for o in ex.call_closure(f, [Ref(ex.seq_item(s_, base))]):
+                            if o.variant == "Equal":
+                                yield Ok(z3.IntVal(base))
+                            elif o.variant == "Less":
+                                yield Err(z3.IntVal(base + 1))
+                            else:
+                                yield Err(z3.IntVal(base))
+                        return
+                    half = size // 2
+                    mid = base + half
+                    for o in ex.call_closure(f, [Ref(ex.seq_item(s_, mid))]):
+                        yield from loop(base if o.variant == "Greater" else mid, size - half)
+                yield from loop(lo, hi - lo)
+            yield from go(0, n)
+
+    @model(r"^core::str::<impl str>::(len|is_empty)$|^(std::string::)?String::(len|is_empty)$", "str::len / is_empty on literals and character lists")
+    def str_len(ex, callee, args, rt):
+        sv = ex.deref(args[0])
+        n = None
+        if isinstance(sv, CharStr):
+            n = len(sv.chars)
+        elif isinstance(sv, StrVal) and sv.concrete() is not None:
+            n = len(sv.concrete().encode("utf-8"))
+        if n is None:
+            if isinstance(sv, StrVal):
+                yield z3.Length(sv.t) if callee.endswith("len") else z3.Length(sv.t) == 0
+                return
+            raise Unsupported("str::len of %r" % (sv,))
+        yield z3.IntVal(n) if callee.endswith("len") else z3.BoolVal(n == 0)
+
     @model(r"^(std::string::)?String::push$", "String::push(char): concatenation with the one-character string of that code point")
     def string_push(ex, callee, args, rt):
         r = args[0]
@@ -1381,6 +1638,61 @@ def install(ex):
     def it_cloned(ex, callee, args, rt):
         inner = make_iter(ex, args[0], False)
         yield IterObj("mapf_deref", inner=inner)
+
+    @model(r"as Iterator>::filter_map$", "Iterator::filter_map")
+    def it_filter_map(ex, callee, args, rt):
+        inner = make_iter(ex, args[0], False)
+        f = args[1]
+
+        def nxt(ex_, it_):
+            for o in iter_next(ex_, inner):
+                if o.variant == "None":
+                    yield NONE
+                    continue
+                for r in ex_.call_closure(f, [o.fields[0]]):
+                    for v in enum_branch(ex_, r, ["Some", "None"]):
+                        if v == "Some":
+                            yield Some(variant_field(ex_, r, "Some", 0))
+                        else:
+                            yield from nxt(ex_, it_)
+        yield IterObj("custom", next=nxt)
+
+    @model(r"as Iterator>::partition$", "Iterator::partition into two Vecs")
+    def it_partition(ex, callee, args, rt):
+        it = make_iter(ex, args[0], False)
+        f = args[1]
+        for items in drain(ex, it):
+            def rec(j, left, right):
+                if j == len(items):
+                    yield Tup([new_seq(ex, list(left), maxlen=len(items) + 2), new_seq(ex, list(right), maxlen=len(items) + 2)])
+                    return
+                for keep in ex.call_closure(f, [Ref(Cell(items[j]))]):
+                    for b in ex.branches([keep, z3.Not(keep)]):
+                        if b == 0:
+                            yield from rec(j + 1, left + (items[j],), right)
+                        else:
+                            yield from rec(j + 1, left, right + (items[j],))
+            yield from rec(0, (), ())
+
+    @model(r"as Iterator>::(find|position)$", "Iterator::find / position")
+    def it_find(ex, callee, args, rt):
+        it = make_iter(ex, args[0], False)
+        f = args[1]
+        want_pos = callee.endswith("position")
+
+        def loop(k):
+            for o in iter_next(ex, it):
+                if o.variant == "None":
+                    yield NONE
+                else:
+                    x = o.fields[0]
+                    for r in ex.call_closure(f, [x if want_pos else Ref(Cell(x))]):
+                        for b in ex.branches([r, z3.Not(r)]):
+                            if b == 0:
+                                yield Some(z3.IntVal(k) if want_pos else x)
+                            else:
+                                yield from loop(k + 1)
+        yield from loop(0)
 
     @model(r"as Iterator>::filter$", "Iterator::filter")
     def it_filter(ex, callee, args, rt):
